@@ -24,6 +24,10 @@ pub struct Plan {
     pub bind: gen::Bind,
     pub repeat: u8,
     pub concurrent: bool,
+    /// while this plan runs the destination host cannot be reached at all (its address is off the loopback device): a denial is
+    /// a denial all the same - 403 in enforce mode, recorded in both modes; what would be relayed ends in a 5xx
+    #[serde(default)]
+    pub host_down: bool,
 }
 
 #[derive(Clone, Debug, Serialize, Deserialize, Hash)]
@@ -81,13 +85,13 @@ fn plan() -> impl Strategy<Value = Plan> {
         gen::gurl_no_traversal(),
         gen::bind(),
         prop_oneof![5 => Just(1u8), 3 => 2u8..5, 1 => 5u8..12],
-        (any::<bool>(), prop::bool::weighted(0.12)),
+        (any::<bool>(), prop::bool::weighted(0.12), prop::bool::weighted(0.06)),
     )
-        .prop_map(|(uid_sel, helper_sel, dest, method, mut url, bind, repeat, (concurrent, upstream_fails))| {
+        .prop_map(|(uid_sel, helper_sel, dest, method, mut url, bind, repeat, (concurrent, upstream_fails, host_down))| {
             if url.path.eq_ignore_ascii_case("/provision") {
                 url.path = "/provisio".into();
             }
-            Plan { rec: Rec { uid_sel, helper_sel, is_root: matches!(dest, DestSel::WireServer | DestSel::GaPlugin) || uid_sel == 0, dest }, method, url, bind, repeat, concurrent: concurrent || repeat >= 100, upstream_fails }
+            Plan { rec: Rec { uid_sel, helper_sel, is_root: matches!(dest, DestSel::WireServer | DestSel::GaPlugin) || uid_sel == 0, dest }, method, url, bind, repeat, concurrent: concurrent || repeat >= 100, upstream_fails, host_down: host_down && repeat < 12 }
         })
 }
 
@@ -115,10 +119,18 @@ pub fn strategy() -> impl Strategy<Value = Case> {
         prop::collection::vec(plan(), 1..8),
         prop::option::weighted(0.3, (prop::option::weighted(0.9, gen::gdoc().prop_map(sanitize_doc)), prop::option::weighted(0.9, gen::gdoc().prop_map(sanitize_doc)), prop::option::weighted(0.7, gen::gdoc().prop_map(sanitize_doc)))),
     )
-        .prop_map(|(ws, imds, hostga, plans, later)| Case { ws, imds, hostga, plans, later })
+        .prop_map(|(ws, imds, hostga, mut plans, later)| {
+            // (a connection kept open across the rule change would lose its host while the address is away)
+            if later.is_some() {
+                for p in plans.iter_mut() {
+                    p.host_down = false;
+                }
+            }
+            Case { ws, imds, hostga, plans, later }
+        })
 }
 
-pub const RULE: &str = "generator: in 30% of the cases one connection of the first eligible plan is kept open, the three rule sets are replaced by other generated ones after the last plan, and one more request goes over that connection: it is blocked / relayed / recorded according to the NEW rule set and mode; one rule set (or none) per endpoint with unique names, each in a generated mode; a history of 1-7 request plans, each = caller (uid from the generated passwd, helper process; elevated for WireServer/HostGAPlugin so that denials come from the rules) (two pairs of helper processes share an executable and differ only in their command line) x method x URL (mostly bound to the destination's rule set, no duplicate query keys) repeated 1-11 times, sequentially or concurrently on separate connections (12% of the plans: the host resets the relayed request instead of answering - the client must get a 5xx and an audit denial is recorded all the same), or (second engine, 3% of the cases) with the first plan as a burst of 150-250 simultaneous denied connections (all opened, then all requests written, then all responses read), followed by the same number of denials handed to AgentStatusSharedState::add_one_failed_connection_summary by concurrent tasks of the agent's runtime. oracle: per request - enforce+deny => 403 and zero upstream bytes; audit+deny => relayed to the recorded destination with status 200; disabled/allowed => relayed; after the history the reference multiset denials[(user, destination ip, port, executable, command line, '403 Forbidden')] equals get_all_failed_connection_summary() (keys and counts) and the failedAuthenticateSummary of the status.json written by a real ProxyAgentStatusTask; one audit-denied request per case is re-sent with the rule set disabled and the two upstream requests must be equal except for the date value and MAC. non-trivial: history with >= 2 identical denials and denials from >= 2 callers in audit or enforce mode; distinct by hash of the case.";
+pub const RULE: &str = "generator: in 30% of the cases one connection of the first eligible plan is kept open, the three rule sets are replaced by other generated ones after the last plan, and one more request goes over that connection: it is blocked / relayed / recorded according to the NEW rule set and mode; one rule set (or none) per endpoint with unique names, each in a generated mode; a history of 1-7 request plans, each = caller (uid from the generated passwd, helper process; elevated for WireServer/HostGAPlugin so that denials come from the rules) (two pairs of helper processes share an executable and differ only in their command line) x method x URL (mostly bound to the destination's rule set, no duplicate query keys) repeated 1-11 times, sequentially or concurrently on separate connections (12% of the plans: the host resets the relayed request instead of answering - the client must get a 5xx and an audit denial is recorded all the same; 6%: the destination host cannot be reached at all while the plan runs - an enforced denial is still a 403, every denial is still recorded), or (second engine, 3% of the cases) with the first plan as a burst of 150-250 simultaneous denied connections (all opened, then all requests written, then all responses read), followed by the same number of denials handed to AgentStatusSharedState::add_one_failed_connection_summary by concurrent tasks of the agent's runtime. oracle: per request - enforce+deny => 403 and zero upstream bytes; audit+deny => relayed to the recorded destination with status 200; disabled/allowed => relayed; after the history the reference multiset denials[(user, destination ip, port, executable, command line, '403 Forbidden')] equals get_all_failed_connection_summary() (keys and counts) and the failedAuthenticateSummary of the status.json written by a real ProxyAgentStatusTask; one audit-denied request per case is re-sent with the rule set disabled and the two upstream requests must be equal except for the date value and MAC. non-trivial: history with >= 2 identical denials and denials from >= 2 callers in audit or enforce mode; distinct by hash of the case.";
 
 type Key = (String, String, u16, String, String, String);
 
@@ -262,6 +274,11 @@ pub fn eval(rig: &Rig, st: &StatusTask, case: &Case, stats: &mut Stats) -> Outco
         if n >= 100 {
             stats.class("plan:burst-of-150-250-simultaneous-connections");
         }
+        let host_addr = format!("{}.{}.{}.{}", ip[0], ip[1], ip[2], ip[3]);
+        let host_is_down = plan.host_down && n < 100 && crate::ns::set_host_address(&host_addr, false).is_ok();
+        if host_is_down {
+            stats.class("plan:destination-host-unreachable");
+        }
         let run_one = || exchange(rig, Some(&plan.rec), &wire, &plan.method);
         let observations: Vec<Result<crate::props::c01::Observed, String>> = if n >= 100 {
             // a burst: all connections are opened first, then every request is written before any response is read,
@@ -295,6 +312,11 @@ pub fn eval(rig: &Rig, st: &StatusTask, case: &Case, stats: &mut Stats) -> Outco
         } else {
             (0..n).map(|_| run_one()).collect()
         };
+        if host_is_down {
+            if let Err(e) = crate::ns::set_host_address(&host_addr, true) {
+                return Outcome::fail("rig:cannot-restore-host-address", e);
+            }
+        }
         if verdict != Verdict::Relay {
             *want.entry(key).or_insert(0) += n as u64;
             if n >= 2 {
@@ -319,7 +341,7 @@ pub fn eval(rig: &Rig, st: &StatusTask, case: &Case, stats: &mut Stats) -> Outco
                         return Outcome::fail("modes:enforced-denial-relayed", format!("{:?} bytes upstream for {} {}", o.delta, plan.method, target));
                     }
                 }
-                Verdict::RelayWithAudit | Verdict::Relay if plan.upstream_fails => {
+                Verdict::RelayWithAudit | Verdict::Relay if plan.upstream_fails || host_is_down => {
                     // authorised (or audit-denied) and handed to the host, which drops it: an error status, and the audit
                     // denial is recorded all the same (checked against the summary below)
                     if !(500..600).contains(&status) {
